@@ -25,7 +25,7 @@ RULE = (
 ASSUMPTIONS = [
     "aliasing between a result and its receiver (shared entry objects) is not a violation by itself: the statement is about the call",
 ]
-REQUIRED_CLASSES = ["tier_history:mutator_failed", "tg_ops:mutator_failed", "save_fail:failed_with_existing_file",
+REQUIRED_CLASSES = ["args:unsorted_argument", "tier_history:mutator_failed", "tg_ops:mutator_failed", "save_fail:failed_with_existing_file",
                     "tg_ops:rename_clash", "tg_ops:add_span_error"]
 
 
@@ -265,9 +265,63 @@ def run_save_fail(case):
     return {"classes": ["saved", f"ok:{f}"], "nontrivial": False}
 
 
+@st.composite
+def arg_cases(draw):
+    style = draw(gen.STYLES_ARITH)
+    spec = draw(st.one_of(gen.interval_tier(style=style, label=gen.AB, allow_empty=False), gen.point_tier(style=style, label=gen.AB, allow_empty=False)))
+    rows = [[draw(st.sampled_from([0.5, 0.1, 2.0, 1.0, 0.25, 3.5])), i] for i in range(draw(st.integers(0, 6)))]
+    return {"tier": spec, "perm": draw(st.permutations(list(range(len(spec["entries"]))))), "rows": rows,
+            "then": draw(st.sampled_from(["none", "insert", "delete"])), "fuzzy": draw(st.booleans())}
+
+
+def run_args(case):
+    """Lists the caller owns (entry lists given to constructors / new(), sample series given to queries)
+    are never reordered or written to, neither by the call nor by later edits of the returned tier."""
+    p = P()
+    spec = case["tier"]
+    is_int = spec["type"] == "interval"
+    E = p.Interval if is_int else p.Point
+    objs = [E(*[float(x) for x in e[:-1]], e[-1]) for e in spec["entries"]]
+    lst = [objs[i] for i in case["perm"]]  # proper entry objects, possibly out of time order
+    before = list(lst)
+    cls = p.IntervalTier if is_int else p.PointTier
+    with quiet():
+        t1 = cls("t", lst, spec["minT"], spec["maxT"])
+    if lst != before or any(a is not b for a, b in zip(lst, before)):
+        raise Violation("argument-mutated:constructor", f"the entry list given to the constructor was changed: {before} -> {lst}")
+    lst2 = list(before)
+    with quiet():
+        t2 = t1.new(entries=lst2)
+    if lst2 != before or any(a is not b for a, b in zip(lst2, before)):
+        raise Violation("argument-mutated:new", f"the entry list given to new(entries=...) was changed: {before} -> {lst2}")
+    if case["then"] != "none":
+        with quiet():
+            if case["then"] == "insert":
+                far = (900.0, 901.0, "zz") if is_int else (900.0, "zz")
+                t1.insertEntry(far)
+                t2.insertEntry(far)
+            else:
+                t1.deleteEntry(t1.entries[0])
+                t2.deleteEntry(t2.entries[0])
+        if lst != before or lst2 != before:
+            raise Violation("argument-aliased", f"editing the returned tier wrote into the caller's entry list: {lst} / {lst2}")
+    data = [tuple(r) for r in case["rows"]]
+    d0 = list(data)
+    if is_int:
+        t1.getValuesInIntervals(data)
+    elif data or not case["fuzzy"]:
+        t1.getValuesAtPoints(data, fuzzyMatching=case["fuzzy"])
+    if data != d0:
+        raise Violation("argument-mutated:query", f"a query reordered the caller's sample series: {d0} -> {data}")
+    unsorted = list(case["perm"]) != sorted(case["perm"]) or d0 != sorted(d0)
+    return {"classes": ["args"] + (["unsorted_argument"] if unsorted else []), "nontrivial": unsorted}
+
+
 CHECKS = [
     Check("tier_history", run_tier_history, strategy=lambda tier: ops.histories(10), quick_n=1200, thorough_n=20000),
     Check("tg_ops", run_tg_op, strategy=lambda tier: tg_op_cases(), quick_n=2000, thorough_n=30000),
+    Check("args", run_args, strategy=lambda tier: arg_cases(), quick_n=600, thorough_n=8000,
+          doc="entry lists and sample series passed as arguments are not reordered or aliased"),
     Check("save_fail", run_save_fail, strategy=lambda tier: save_fail_cases(), quick_n=600, thorough_n=8000),
 ]
 KNOWN = {}
